@@ -38,9 +38,32 @@ namespace sim
       }
    }  // namespace
 
+   namespace
+   {
+      Job make_job_from( const std::string& check, std::uint64_t s, std::uint64_t index, bool thorough, unsigned sweep_slot );
+   }
+
+   // Thorough tier: jobs with a fault plan or a stream plan come in groups of 16 that share grammar, input and
+   // configuration; within a group the first fault sweeps k = 1..16 (every callback / reader call / allocation up
+   // to the 16th) and every member gets its own read schedule. Quick tier: every index is an independent case.
    Job make_job( const std::string& check, std::uint64_t seed, std::uint64_t index, bool thorough )
    {
-      const std::uint64_t s = mix64( seed, index );
+      const std::uint64_t s0 = mix64( seed, index );
+      if( !thorough ) {
+         return make_job_from( check, s0, index, thorough, 0 );
+      }
+      const Job probe = make_job_from( check, s0, index, thorough, 0 );
+      if( probe.mode == MODE_IO || ( !probe.with_faults && !is_buffer( probe.set ) ) ) {
+         return probe;
+      }
+      const std::uint64_t group = index / 128, slot = ( index / 8 ) % 16;
+      return make_job_from( check, mix64( seed ^ 0x73776565ULL, group * 8 + index % 8 ), index, thorough, static_cast< unsigned >( slot ) + 1 );
+   }
+
+   namespace
+   {
+   Job make_job_from( const std::string& check, std::uint64_t s, std::uint64_t index, bool thorough, unsigned sweep_slot )
+   {
       Rng r( mix64( s, 0x6a6f62 ) );
       Job j;
       j.check = check;
@@ -130,9 +153,13 @@ namespace sim
       else if( check == "C07" && sub == 1 ) {
          // fixed grammars through the stock file / stream / string / argv input classes
          j.mode = MODE_IO;
-         j.set = static_cast< SetId >( IO_LAZY + r.below( IO_LAST - IO_LAZY + 1 ) );
+         j.set = static_cast< SetId >( IO_LAZY + r.below( IO_BUF_LF - IO_LAZY + 1 ) );
          Case& c = j.c;
          c.prog = 1 + r.below( IO_PROGS );
+         const bool eol_class = ( int( j.set ) >= IO_BUF_CR );
+         if( eol_class ) {
+            c.prog = 2;  // the line grammar under the other end-of-line policies, chunk size 4
+         }
          c.vetoseed = r.next();
          c.input = gen_io_input( mix64( s, 0x696f ), static_cast< int >( c.prog ), int( j.set ) );
          const bool stream = ( int( j.set ) == IO_CSTREAM || int( j.set ) == IO_ISTREAM );
@@ -141,17 +168,24 @@ namespace sim
             gen_stream_plan( mix64( s, 0x706c616e ), c, 64 );
             c.maximum = static_cast< std::uint32_t >( c.input.size() ) + 64;
          }
+         if( eol_class ) {
+            gen_stream_plan( mix64( s, 0x706c616e ), c, 4 );
+            c.maximum = static_cast< std::uint32_t >( c.input.size() ) + 16;
+         }
          const unsigned fk = r.below( 8 );
-         if( fk == 0 && ( stream || int( j.set ) == IO_READ_FP ) ) {
+         if( fk == 0 && ( stream || eol_class || int( j.set ) == IO_READ_FP ) ) {
             c.faults.push_back( FaultOp{ SITE_READER, EXC_IO, static_cast< std::uint16_t >( r.range( 1, 4 ) ) } );
          }
          else if( fk == 1 && ( int( j.set ) == IO_READ || int( j.set ) == IO_READ_FP || int( j.set ) == IO_MMAP || int( j.set ) == IO_FILE ) ) {
             c.faults.push_back( FaultOp{ SITE_SYSCALL, EXC_IO, static_cast< std::uint16_t >( r.range( 1, 3 ) ) } );
          }
+         else if( fk == 3 && int( j.set ) == IO_READ_FP && !c.input.empty() ) {
+            c.short_by = r.range( 1, static_cast< std::uint32_t >( c.input.size() ) );  // the file shrank after its size was taken
+         }
          else if( fk == 2 ) {
             c.faults.push_back( FaultOp{ SITE_ACTION, static_cast< std::uint8_t >( r.chance( 1, 2 ) ? EXC_FAULT : EXC_STD ), static_cast< std::uint16_t >( r.range( 1, 6 ) ) } );
          }
-         j.with_faults = !c.faults.empty();
+         j.with_faults = !c.faults.empty() || c.short_by != 0;
          return j;
       }
       else if( check == "C07" ) {
@@ -176,7 +210,7 @@ namespace sim
       }
       else if( check == "C12" ) {
          j.mode = MODE_TREE;
-         j.set = SET_TREE;
+         j.set = ( index % 2 == 0 ) ? SET_TREE : SET_TREE_UW;  // control without / with unwind()
          p.focus = r.chance( 3, 4 ) ? FOCUS_TREE : FOCUS_GENERAL;
          p.fixed_modes = true;
          if( sub >= 4 ) {
@@ -193,11 +227,15 @@ namespace sim
       }
       j.with_faults = p.max_faults > 0;
       j.c = gen_case( s, p );
+      if( sweep_slot != 0 && !j.c.faults.empty() ) {
+         j.c.faults[ 0 ].k = static_cast< std::uint16_t >( sweep_slot );
+      }
       if( is_buffer( j.set ) ) {
-         gen_stream_plan( mix64( s, 0x706c616e ), j.c, chunk_of( j.set ) );
+         gen_stream_plan( mix64( s, 0x706c616e + sweep_slot ), j.c, chunk_of( j.set ) );
       }
       return j;
    }
+   }  // namespace
 
    namespace
    {
@@ -296,19 +334,20 @@ namespace sim
             break;
          }
          case MODE_TREE: {
-            const RunResult r = run_case( SET_TREE, j.c );
+            const RunResult r = run_case( j.set, j.c );
             account( r, v );
             v.fingerprint = r.hash;
             if( r.aborted ) {
                v.discarded = true;
                return v;
             }
-            check_history( j.c, SET_TREE, r, all, v.f );
+            check_history( j.c, j.set, r, all, v.f );
             check_tree( j.c, r, all, v.f );
             break;
          }
          case MODE_IO: {
-            const RunResult ref = run_case( static_cast< SetId >( IO_MEM ), j.c );
+            const SetId ref_set = static_cast< SetId >( io_reference_of( int( j.set ) ) );
+            const RunResult ref = run_case( ref_set, j.c );
             account( ref, v );
             const RunResult alt = run_case( j.set, j.c );
             account( alt, v );
@@ -318,9 +357,9 @@ namespace sim
                return v;
             }
             Features fr;
-            check_history( j.c, static_cast< SetId >( IO_MEM ), ref, all, fr );
+            check_history( j.c, ref_set, ref, all, fr );
             check_history( j.c, j.set, alt, all, v.f );
-            check_equal( j.c, static_cast< SetId >( IO_MEM ), ref, j.set, alt, 64, all, v.f );
+            check_equal( j.c, ref_set, ref, j.set, alt, 64, all, v.f );
             check_iofault( j.c, alt, all, v.f );
             v.f.nontrivial = true;
             break;
